@@ -562,3 +562,29 @@ def shared_gradient_docs_scenario(r):
         glyphs.append(((cp + 1,), (0, 0, 100, 100), second))
         cp += 2
     return glyphs
+
+
+def stop_alpha_grid():
+    """Where a colour's alpha can come from, multiplied together: the colour's own spelling (#rrggbb / #rrggbbaa / #rgba)
+    x stop-opacity x the shape's opacity, for gradient stops (linear, radial) and for solid fills.
+    -> [(label, glyphs)]"""
+    out = []
+    spellings = {"rgb": ("#E53935", "#3949AB"), "rrggbbaa": ("#E5393580", "#3949ABC0"), "rgba": ("#e358", "#34ac")}
+    for sp, (c1, c2) in spellings.items():
+        for so in (1, 0.5):
+            for op in (1.0, 0.8):
+                for kind in ("linear", "radial", "solid"):
+                    if kind == "solid":
+                        if so != 1:
+                            continue
+                        fill = FillSpec("solid", color=c1, index=None)
+                    elif kind == "linear":
+                        fill = FillSpec("linear", stops=[(0.0, c1, so), (1.0, c2, 1)], units="objectBoundingBox", spread="pad", gt=None,
+                                        geom=(0.0, 0.1, 1.0, 0.9))
+                    else:
+                        fill = FillSpec("radial", stops=[(0.0, c2, 1), (1.0, c1, so)], units="objectBoundingBox", spread="pad", gt=None,
+                                        geom=(0.5, 0.5, 0.5), focal=None)
+                    layers = [LayerSpec("blob:3", (7, 0, 0, 7, 40, 45), fill, op),
+                              LayerSpec("T", (5, 0, 0, 5, 72, 30), FillSpec("solid", color=PALETTE[4], index=None), 1.0)]
+                    out.append((f"{kind} {sp} stop-opacity={so} opacity={op}", [(CODEPOINTS[0], (0, 0, 100, 100), layers)]))
+    return out
